@@ -109,6 +109,21 @@ def run(ctx):
         if not exact_terms_ok(out.terms) or not exact_terms_ok(spec): continue
         add('bk_interaction_operator', '(pauli_equiv (bk_gen Cis0 %s %s) %s)' % (coq_fop_terms(spec), cZ(nq), coq_qop(out)),
             {'call': 'bravyi_kitaev(InteractionOperator)', 'n': n, 'n_qubits': nq, 'one_body': repr(one.tolist()), 'two_body_nonzero': {repr(x): repr(two[x]) for x in zip(*np.nonzero(two))}}, key=(nq, repr(spec)))
+    # E2. every double-excitation pairing class on every 4-subset of modes, with n_qubits above the tensor size
+    #     (the update sets then reach into the extra qubits), plus number-excitation and Coulomb classes on 3- and 2-subsets
+    for n, nq in ([(5, 6), (5, 8), (6, 7)] if ctx.quick else [(5, 6), (5, 8), (6, 7), (6, 9), (7, 8), (7, 12), (8, 9)]):
+        for sub in itertools.combinations(range(n), 4):
+            a_, b_, c_, d_ = sub
+            for (p, q, r, s_) in ((d_, c_, b_, a_), (d_, b_, c_, a_), (d_, a_, c_, b_), (c_, b_, d_, a_), (a_, d_, b_, c_)):
+                one = np.zeros((n, n), dtype=complex); two = np.zeros((n,) * 4, dtype=complex)
+                cf = dyc(rng); two[p, q, r, s_] += cf; two[s_, r, q, p] += np.conj(cf)
+                iop = of.InteractionOperator(0.0, one, two); spec = spec_tensor(0.0, one, two)
+                try: out = of.bravyi_kitaev(iop, n_qubits=nq)
+                except Exception as e:
+                    ctx.violation('C05 bk_interaction_operator: bravyi_kitaev(InteractionOperator, n_qubits=%d) raised %s: %s' % (nq, type(e).__name__, e), {'n': n, 'n_qubits': nq, 'entry': [p, q, r, s_]}); continue
+                if not exact_terms_ok(out.terms) or not exact_terms_ok(spec): continue
+                add('bk_interaction_operator_classes', '(pauli_equiv (bk_gen Cis0 %s %s) %s)' % (coq_fop_terms(spec), cZ(nq), coq_qop(out)),
+                    {'call': 'bravyi_kitaev(InteractionOperator)', 'n': n, 'n_qubits': nq, 'two_body_entry': [p, q, r, s_], 'coefficient': repr(cf)}, key=(n, nq, p, q, r, s_))
     # F. _seeley_richard_love(i, j, c, n) = c * bk(a+_i) bk(a_j), all (i, j) for n <= nsrl
     nsrl = N(16, 40)
     for n in range(1, nsrl + 1):
